@@ -170,3 +170,12 @@ Definition run_request (kec : bytes -> bytes) (cfg : registry) (reg : bytes) (q 
 Definition session (kec : bytes -> bytes) (cfg : registry) (reg : bytes) (qs : list request)
   : list (list effect * answer) :=
   map (run_request kec cfg reg) qs.
+
+(* --- the receipt as the real client hands it over ---------------------------------------------
+   evmclient.EvmClient.WaitForReceipt answers from the client's own table of sent transactions.
+   The client's background watcher removes a transaction from that table as soon as it has
+   seen its receipt; a caller that starts waiting only after that ([late]) gets the error
+   "tx not found", whatever the receipt was.  [w] is what the chain holds for the transaction
+   (a receipt with its status; WErr: dropped / replaced, or nothing before the caller's
+   context ends). *)
+Definition evm_wait (late : bool) (w : receiptres) : receiptres := if late then WErr else w.
